@@ -6,6 +6,7 @@ Curl-P-81 hashes of the 64 nonces is the business of iota.go's curl/bct (externa
 correspondence run, which re-scores every returned nonce through an independent Lean pipeline).
 -/
 import Iota.Proofs.Pow
+import Iota.Proofs.PowScore
 
 namespace Iota.Props.C12
 open Iota.Pow Iota.Proofs.Pow
@@ -53,6 +54,37 @@ theorem single_worker_mining (planes : Nat → Planes × Planes) (lx len t : Nat
     lx ≤ maxHash / stateToInt (planes b).1 (planes b).2 i ∧
     ∀ b', k ≤ b' → b' < b → ∀ j, j < 64 → maxHash / stateToInt (planes b').1 (planes b').2 j ≤ lx :=
   mineSeq_v2 planes lx len t h8 hlx hlen hlt fuel k b i hm
+
+/-! ### up to `Score(data ‖ nonce)`
+`Iota/Model/PowScore.lean` models what the integer core above abstracts from: the nonce of lane i in batch b of a worker
+started at `start` is `(start + 64·b + i) mod 2^64`; the hashed block is b1t6(digest) ‖ b1t6(nonce, 8 bytes little-endian)
+‖ 000; the hash is one absorb and one squeeze of the single-lane Curl-P-81 specification; `ScoreV2`/`ScoreMsgV2` is
+`Score` on data ‖ nonce.  The ONE hypothesis about iota.go's batched sponge `curl/bct` (external) is `BctFaithful slice`:
+the planes it leaves are the bit-slicing of the 64 lane hashes — satisfiable (`sliceOf_faithful`).  (That `Score` itself
+hashes with iota.go's single-lane `curl`, read here as the Curl-P-81 specification, is the second reliance on iota.go.)
+`Mine` returns a nonce some worker returned (`Iota.Props.C13.outcome`), and worker i starts at i·⌊(2^64−1)/W⌋: hence an
+arbitrary `start`. Proofs: `Iota/Proofs/PowScore.lean`. -/
+open Iota.PowScore Iota.Proofs.PowScore in
+/-- **soundness at Score level, any worker**: a nonce returned by a worker's loop scores at least t. -/
+theorem returned_nonce_scores (slice : (Fin 64 → List Int) → Planes × Planes) (hslice : BctFaithful slice)
+    (H : List UInt8 → List UInt8) (data : List UInt8) (t start fuel n : Nat)
+    (ht : 1 ≤ t) (hlx : (data.length + 8) * t < 2 ^ 64)
+    (hw : worker slice (testV2 ((data.length + 8) * t)) (H data) start fuel = some n) :
+    t ≤ ScoreV2 H data n ∧ t ≤ ScoreMsgV2 H (data ++ nonceBytes n) :=
+  mine_v2_score slice hslice H data t start fuel n ht hlx hw
+
+open Iota.PowScore Iota.Proofs.PowScore in
+/-- **no pass-over at nonce level, single worker** (start 0): no nonce of an earlier 64-block has difficulty above len·t. -/
+theorem single_worker_no_passover (slice : (Fin 64 → List Int) → Planes × Planes) (hslice : BctFaithful slice)
+    (digest : List UInt8) (fuel lx len t n : Nat) (hfuel : fuel ≤ 2 ^ 58) (h8 : 8 ≤ lx) (hlx : lx < 2 ^ 64)
+    (hlen : 1 ≤ len) (hlt : lx = len * t)
+    (hw : worker slice (testV2 lx) digest 0 fuel = some n) :
+    n < 64 * fuel ∧ t ≤ score (hashTrits digest n) len ∧
+      ∀ m, m / 64 < n / 64 → difficulty (hashTrits digest m) ≤ lx :=
+  worker_v2_first slice hslice digest fuel lx len t n hfuel h8 hlx hlen hlt hw
+
+open Iota.PowScore Iota.Proofs.PowScore in
+theorem bct_hypothesis_satisfiable : BctFaithful sliceOf := sliceOf_faithful
 
 /-! ### non-vacuity -/
 example : sufficientTrailingZeros 8 = 2 ∧ sufficientTrailingZeros 9 = 2 ∧ sufficientTrailingZeros 10 = 3 ∧
